@@ -28,6 +28,8 @@ def poly_expr(xs, j):
     import sympy as sp
     n = len(xs)
     e = sp.Rational(j, 2)
+    if j >= 3 and j % 2 == 1:
+        return e + 0 * sum(xs, sp.Integer(0))
     for i in range(n):
         e += cji(j, i) * xs[i] * xs[i] * xs[(i + 1) % n]
     if n:
